@@ -93,6 +93,20 @@ def gen_tree(rng: random.Random, era=None, p_inf=0.0) -> dict:
             }
         )
     tree["sc"] = {"kind": "scale", "brackets": brackets}
+    # the other kinds of scale: amounts per bracket (marginal, or a single amount), and
+    # average rates
+    for name, key in (("sa", "amount"), ("sv", "average_rate")):
+        if not chance(rng, 0.5):
+            continue
+        bs = []
+        for i in range(rng.randint(1, 3)):
+            bs.append({
+                "threshold": gen_leaf(rng, lo=100.0 * i, hi=100.0 * i + 50, allow_null=chance(rng, 0.5), era=era)["values"],
+                key: gen_leaf(rng, lo=0.0, hi=(500.0 if key == "amount" else 1.0), era=era)["values"],
+            })
+        tree[name] = {"kind": "scale", "brackets": bs}
+        if key == "amount" and chance(rng, 0.5):
+            tree[name]["type"] = "single_amount"
     tree["zones"] = {
         "kind": "node",
         "children": {f"z{i}": gen_leaf(rng, always=True, allow_null=False, **L) for i in range(rng.randint(2, 4))},
@@ -157,6 +171,8 @@ def tree_data(tree) -> dict:
                     {k: leaf_data(v)["values"] for k, v in b.items()} for b in node["brackets"]
                 ]
             }
+            if node.get("type"):
+                out[name]["metadata"] = {"type": node["type"]}
         else:
             out[name] = tree_data(node["children"])
     return out
